@@ -44,7 +44,8 @@ ASSUMPTIONS = ['exact real arithmetic in the lifting theorems; table errors ente
                'the integral over a physical triangle is jac times the Riemann integral over the reference triangle of the pulled-back integrand (affine change of variables taken as definition; signed with the vertex orientation)',
                'edge quadrature theorem is stated at the exact edge points A + s_q t (the certified 1-D shape tables put the interpolated points within 1e-11 relative of them)',
                'mesh divergence theorem assumes the directed element edges are the boundary edges plus interior edges once in each direction (C13)']
-RULE = ('certificates: the complete set {order 1..5} x {bubble on/off} x {2-D degree 1..10}, {order 1..5} x {1-D degree 0..25}, all 1-D and 2-D rules, obtained by '
+RULE = ('second-wave L2 additions per mesh: integrate_over_block on a proper non-prefix element subset, with a per-element parameter field, with a random state-variable field, and with an integrand using the primal field and its gradient (polynomial nodal fields, exact rational reference values); project_quadrature_field_to_element_field against the volume-weighted average and the exact element mean of monomials; edge integrals whose integrand multiplies the interpolated nodal field with the position; Surface.integrate_function_on_surface on the simplex mesh of every cartesian case; axisymmetric mode for every (order, bubble) combination in every tier. '
+        'certificates: the complete set {order 1..5} x {bubble on/off} x {2-D degree 1..10}, {order 1..5} x {1-D degree 0..25}, all 1-D and 2-D rules, obtained by '
         'calling the implementation\'s constructors; one configuration = one distinct item. L2: seeded random Delaunay / graded / rotated / anisotropic / '
         'structured triangulations with random cyclic vertex rotation per element, orders and bubble cycling through all combinations, random rule degrees, '
         'cartesian and axisymmetric; a mesh counts as non-trivial when it has >= 2 elements; distinct = distinct (kind, seed, order, bubble, degree, mode). '
@@ -611,10 +612,15 @@ def l2_case(case):
                 nev += 1
                 if not abs(gotu - float(exactu)) <= tolu:
                     bad.append('edge integral of (interpolated nodal field u = x^%d y^%d) * y * n_x with 1-D degree %d: %r, exact %r (tol %.3g)' % (au, bu, d1, gotu, float(exactu), tolu))
-            if p == 1 and not bub:
+            if True:
+                # Surface.integrate_function_on_surface only reads the vertex connectivity: evaluated on the straight-sided simplex mesh
+                # of EVERY cartesian case (all mesh kinds, in particular rotated ones whose boundary edges are not axis aligned)
                 from optimism import Surface
+                mesh1 = mesh if (p == 1 and not bub) else Mesh.construct_mesh_from_basic_data(jnp.asarray(coords), jnp.asarray(conns), {'block': jnp.arange(conns.shape[0])})
+                _, edges1 = Mesh.create_edges(onp.asarray(conns))
+                bnd1 = onp.array([[e1_[0], e1_[1]] for e1_ in edges1 if e1_[2] < 0], dtype=int)
                 f2 = (lambda x, n, a=a, b=b, c=c, e_=e_: x[0] ** a * x[1] ** b * n[0] + x[0] ** c * x[1] ** e_ * n[1])
-                got2 = float(Surface.integrate_function_on_surface(qr1, jnp.asarray(bnd), mesh, f2))
+                got2 = float(Surface.integrate_function_on_surface(qr1, jnp.asarray(bnd1), mesh1, f2))
                 nev += 1
                 if not abs(got2 - float(exact)) <= tol:
                     bad.append('divergence theorem (Surface.integrate_function_on_surface) fails for F=(x^%d y^%d, x^%d y^%d), 1-D degree %d: %r vs %r' % (a, b, c, e_, d1, got2, float(exact)))
